@@ -445,7 +445,7 @@ theorem Inv.transfer {inp : EnvInput} {s s' : EnvState} (h : Inv inp s)
     rw [hix, hc, hminx, hst]; exact this
 
 theorem inv_config {inp : EnvInput} {s : EnvState} (h : Inv inp s) (m : Option (List Nat)) :
-    Inv inp { s with minx := m, mtf := s.mtf.erase, ix := true } := by
+    Inv inp { s with minx := m, minxDef := false, mtf := s.mtf.erase, ix := true } := by
   refine ⟨wf_erase h.wf, by rw [cap_erase]; exact h.cap, ?_, h.x0, h.q0, h.iq0, h.resid, ?_, ?_, h.tq⟩
   · intro hlt; exact ⟨rfl, (h.low hlt).2⟩
   · intro hx; simp at hx
@@ -652,10 +652,22 @@ theorem step_twice {inp : EnvInput} {s : EnvState} (h : Inv inp s) (hp : inp.Pos
   have h1 := step_spec h hp q hv
   rw [(step_spec h1.1 hp q hv).2, h1.2, step_query_eff h hp q hv hq]
 
-theorem step_after_reset {inp : EnvInput} {s : EnvState} (h : Inv inp s) (hp : inp.Pos) (q : Op)
+/-- a list marked as built by `solve_x` is the list of all parameters of the current system -/
+def MD (inp : EnvInput) (s : EnvState) : Prop := s.minxDef = true → s.minx = some (allList inp.n)
+
+theorem eff_cfg {inp : EnvInput} {s : EnvState} (hmd : MD inp s) : eff inp (cfg s) = eff inp s.minx := by
+  unfold cfg
+  by_cases hd : s.minxDef = true
+  · simp [hd, hmd hd, eff]
+  · simp [hd]
+
+theorem step_after_reset {inp : EnvInput} {s : EnvState} (h : Inv inp s) (hmd : MD inp s) (hp : inp.Pos) (q : Op)
     (hv : q.Valid) : (step inp (step inp s .reset).1 q).2 = (step inp s q).2 := by
   have h1 := step_spec h hp .reset trivial
   rw [(step_spec h1.1 hp q hv).2, (step_spec h hp q hv).2]
-  simp [step, reset, setStage]
+  have : eff inp (step inp s .reset).1.minx = eff inp s.minx := by
+    have := eff_cfg hmd
+    simpa [step, reset, setStage, cfg] using this
+  rw [this]
 
 end Gama.C04
